@@ -8,6 +8,7 @@ R-CRC-SHAPE  each routine, reconstructed from MIR and normalised over GF(2) (xor
 Nothing is executed: tables are data the source states literally (read from the compiler's constant
 allocation), routines are compared as symbolic normal forms.
 """
+LEVEL = "proof"
 from analysis import facts as F
 from analysis.expr import ExprBuilder, show
 from analysis import gf2
@@ -105,18 +106,41 @@ def run(chk):
         chk.anchor(b is not None, "R-CRC-SHAPE", "anchor missing: fn %s" % name)
         return b
 
-    def widths(b, extra_locals=()):
+    def widths(b, extra_locals=(), acc_name="crc"):
         """free variables of a routine's expressions may only be its parameters (or the named loop accumulators):
-        a shadowing local (`let crc = if crc == 0 {..}`) is a different value and is rejected"""
+        a shadowing local (`let crc = if crc == 0 {..}`) is a different value and is rejected.
+        Variables get canonical names by role, not by their source names: the byte parameter is `b`, the wider integer
+        parameter `crc`, a loop accumulator `acc_name`."""
         def vw(e):
             if not (1 <= e[1] <= b.argc or e[1] in extra_locals):
                 return None
             ty = b.ty(e[1])
             w = gf2.WIDTH.get(ty.get("n", ""))
             if ty["k"] == "int" and w:
-                return (e[2] or "_%d" % e[1], w)
+                if e[1] in extra_locals:
+                    return (acc_name, w)
+                return ("b" if w == 8 else "crc", w)
             return None
         return vw
+
+    def roles(b):
+        """source names by role: (accumulator local, its name, slice parameter name, integer parameter name, shadowing slice local)"""
+        heads = b.loop_heads()
+        loop = b.natural_loop(next(iter(heads))) if len(heads) == 1 else set()
+        accs, sls = [], []
+        for l in range(b.argc + 1, len(b.locals)):
+            if not b.lname(l) or b.lname(l) == "iter":
+                continue
+            ds = b.defs.get(l, [])
+            if any(bi in loop for bi, _ in ds) and any(bi not in loop for bi, _ in ds):
+                if b.ty(l)["k"] == "int":
+                    accs.append(l)
+                elif b.tys(l) == "&[u8]":
+                    sls.append(l)
+        slice_p = [b.lname(i) for i in range(1, b.argc + 1) if b.tys(i) == "&[u8]"]
+        int_p = [b.lname(i) for i in range(1, b.argc + 1) if b.ty(i)["k"] == "int"]
+        return (accs[0] if len(accs) == 1 else None, b.lname(accs[0]) if len(accs) == 1 else "?", slice_p[0] if len(slice_p) == 1 else "?",
+                int_p[0] if len(int_p) == 1 else "?", sls)
 
     def elem_input(iter_names):
         def inp(e):
@@ -226,25 +250,28 @@ def run(chk):
     # get_crc16: crc = 0; for b in block { crc = update_crc16(crc, *b) }; crc
     b = body("crc::get_crc16")
     if b:
+        R16 = roles(b)
+
         def step16(e, eb):
-            ok = e[0] == "call" and e[1] == "crc::update_crc16" and len(e[2]) == 2 and e[2][0][0] == "var" and e[2][0][2] == "crc" \
+            ok = e[0] == "call" and e[1] == "crc::update_crc16" and len(e[2]) == 2 and e[2][0][0] == "var" and e[2][0][1] == R16[0] \
                 and elem_input({"iter"})(e[2][1]) is not None
             chk.obligation(ok)
             if not ok:
                 mismatch("get_crc16", "loop update must be update_crc16(crc, next byte)", got=show(e))
-        fold_loop("get_crc16", b, "crc", lambda e: e == ("const", 0), step16, "block",
-                  lambda e: e[0] == "var" and e[2] == "crc")
+        fold_loop("get_crc16", b, R16[1], lambda e: e == ("const", 0), step16, R16[2],
+                  lambda e: e[0] == "var" and e[1] == R16[0])
     # update_slow: crc = !prev; for byte in buf { crc = T0[(crc as u8) ^ byte] ^ (crc >> 8) }; !crc
     b = body("crc::update_slow")
     if b:
+        RS = roles(b)
+
         def step_slow(e, eb):
-            accs = [l for l in range(b.argc + 1, len(b.locals)) if b.lname(l) == "crc"]
-            nz = gf2.Normalizer(widths(b, accs if len(accs) == 1 else ()), tables, elem_input({"iter"}))
+            nz = gf2.Normalizer(widths(b, (RS[0],) if RS[0] is not None else ()), tables, elem_input({"iter"}))
             check_nf("update_slow", "loop update", e, upd32(gf2.var_bits("elem", 8)), nz)
-        fold_loop("update_slow", b, "crc",
-                  lambda e: e[0] == "un" and e[1] == "Not" and e[2][0] == "var" and e[2][2] == "prev",
-                  step_slow, "buf",
-                  lambda e: e[0] == "un" and e[1] == "Not" and e[2][0] == "var" and e[2][2] == "crc")
+        fold_loop("update_slow", b, RS[1],
+                  lambda e: e[0] == "un" and e[1] == "Not" and e[2][0] == "var" and 1 <= e[2][1] <= b.argc and e[2][2] == RS[3],
+                  step_slow, RS[2],
+                  lambda e: e[0] == "un" and e[1] == "Not" and e[2][0] == "var" and e[2][1] == RS[0])
     # get_crc32: slicing by 16
     b = body("crc::get_crc32")
     if b:
@@ -253,7 +280,9 @@ def run(chk):
         if chk.anchor(len(heads) == 1, "R-CRC-SHAPE", "get_crc32: exactly one loop"):
             head = next(iter(heads))
             loop = b.natural_loop(head)
-            rds = defs_of(b, eb, "result")
+            R32 = roles(b)
+            ACC, BUFP = R32[1], R32[2]
+            rds = defs_of(b, eb, ACC)
             inits = [e for bi, e in rds if bi not in loop]
             steps = [e for bi, e in rds if bi in loop]
             ok = len(inits) == 1 and inits[0] == ("const", 0xFFFFFFFF)
@@ -261,11 +290,14 @@ def run(chk):
             if not ok:
                 mismatch("get_crc32", "initial value must be 0xFFFF_FFFF", got=str([show(e) for e in inits]))
             # buf is shadowed: the loop variable is the local (not the argument) named buf
-            bufl = [l for l in range(b.argc + 1, len(b.locals)) if b.lname(l) == "buf"]
-            bds = [(bi, e) for bi, e in defs_of(b, eb, "buf")]
+            bufl = list(R32[4])
+            bds = []
+            for l_ in bufl:
+                for bi_, k_ in b.defs.get(l_, []):
+                    bds.append((bi_, eb.call_expr(b.blocks[bi_]["term"]) if k_ == "term" else eb.rvalue(b.blocks[bi_]["stmts"][k_]["rv"])))
             binit = [e for bi, e in bds if bi not in loop]
             bstep = [e for bi, e in bds if bi in loop]
-            ok = len(bufl) == 1 and len(binit) == 1 and binit[0][0] == "var" and binit[0][1] <= b.argc and binit[0][2] == "buf"
+            ok = len(bufl) == 1 and len(binit) == 1 and binit[0][0] == "var" and binit[0][1] <= b.argc and binit[0][2] == BUFP
             chk.obligation(ok)
             if not ok:
                 mismatch("get_crc32", "window must start at the whole input", got=str([show(e) for e in binit]))
@@ -279,7 +311,7 @@ def run(chk):
                 base, rng = e[2][0], e[2][1]
                 while base[0] in ("ref", "deref"):
                     base = base[1]
-                return base[0] == "var" and base[2] == "buf" and base[1] in bufl and rng[0] == "agg" \
+                return base[0] == "var" and base[1] in bufl and rng[0] == "agg" \
                     and rng[1].startswith("adt:std::ops::RangeFrom") and rng[2] == [("const", 16)]
             ok = len(bstep) == 1 and is_adv(bstep[0])
             chk.obligation(ok)
@@ -300,7 +332,7 @@ def run(chk):
                         x = e[1]
                         while x[0] in ("ref", "deref"):
                             x = x[1]
-                        return x[0] == "var" and x[2] == "buf" and x[1] in bufl
+                        return x[0] == "var" and x[1] in bufl
                     # any guard that implies len(buf) >= 16 is correct (the tail routine takes whatever remains)
                     if g[0] == "bin" and stay_on_true:
                         def cst(e):
@@ -332,12 +364,12 @@ def run(chk):
                     base = x[1]
                     while base[0] in ("ref", "deref"):
                         base = base[1]
-                    if base[0] == "var" and base[2] == "buf" and base[1] in bufl:
+                    if base[0] == "var" and base[1] in bufl:
                         return ("buf%d" % x[2][1], 8)
                 return None
             if len(steps) == 1:
-                accs = [l for l in range(b.argc + 1, len(b.locals)) if b.lname(l) == "result"]
-                nz = gf2.Normalizer(widths(b, accs if len(accs) == 1 else ()), tables, buf_input)
+                accs = [R32[0]] if R32[0] is not None else []
+                nz = gf2.Normalizer(widths(b, accs if len(accs) == 1 else (), acc_name="result"), tables, buf_input)
                 if check_nf("get_crc32", "unrolled 16-byte step", steps[0], exp, nz):
                     chk.sample("get_crc32 step = XOR of 16 lookups; slice k indexed by buf[15-k], slices 12..15 also by bytes 3..0 of result")
             else:
@@ -351,8 +383,8 @@ def run(chk):
                 a0, a1 = e[2]
                 while a1[0] in ("ref", "deref"):
                     a1 = a1[1]
-                return a0[0] == "un" and a0[1] == "Not" and a0[2][0] == "var" and a0[2][2] == "result" \
-                    and a1[0] == "var" and a1[2] == "buf" and a1[1] in bufl
+                return a0[0] == "un" and a0[1] == "Not" and a0[2][0] == "var" and a0[2][1] == R32[0] \
+                    and a1[0] == "var" and a1[1] in bufl
             ok = len(rets) == 1 and is_tail(rets[0])
             chk.obligation(ok)
             if not ok:
